@@ -86,12 +86,15 @@ def tick (l : Link M) (now : Nat) : Link M :=
 def anyHealthy (l : Link M) : Bool := l.stAB == .healthy || l.stBA == .healthy
 def anyRand (l : Link M) : Bool := l.stAB == .rand || l.stBA == .rand
 
+/-- a held message is scheduled for `now`; others keep their deadline. -/
+def releaseOne (now : Nat) (s : Sent M) : Sent M :=
+  match s.status with
+  | .hold => { s with status := .after now }
+  | _ => s
+
 /-- `release`: both directions healthy, held messages scheduled for `now`. -/
 def release (l : Link M) : Link M :=
-  { l with stAB := .healthy, stBA := .healthy,
-           sent := l.sent.map (fun s => match s.status with
-                                        | .hold => { s with status := .after l.now }
-                                        | _ => s) }
+  { l with stAB := .healthy, stBA := .healthy, sent := l.sent.map (releaseOne l.now) }
 
 def hold (l : Link M) : Link M :=
   { l with stAB := .hold, stBA := .hold,
@@ -170,9 +173,15 @@ def repairOneway (l : Link M) (src dst : Nat) : Link M :=
 def explicitRepair (l : Link M) : Link M :=
   { l with stAB := .healthy, stBA := .healthy, exAB := false, exBA := false }
 
+/-- schedule the `i`-th message of a queue for time `t`. -/
+def deliverAt (t : Nat) : Nat → List (Sent M) → List (Sent M)
+  | _, [] => []
+  | 0, x :: xs => { x with status := .after t } :: xs
+  | i + 1, x :: xs => x :: deliverAt t i xs
+
 /-- `SentRef::deliver` on the `i`-th in-flight message: schedule it for the link's `now`. -/
 def manualDeliver (l : Link M) (i : Nat) : Link M :=
-  { l with sent := l.sent.mapIdx (fun j s => if j == i then { s with status := .after l.now } else s) }
+  { l with sent := deliverAt l.now i l.sent }
 
 end Link
 
